@@ -14,6 +14,9 @@ INT_TYPES = {
     'short': (16, True), 'unsigned short': (16, False), 'int': (32, True), 'unsigned int': (32, False),
     'long': (64, True), 'unsigned long': (64, False), 'long long': (64, True),
     'unsigned long long': (64, False),
+    # <stdint.h> names (clang leaves the pointee of a pointer-to-typedef sugared)
+    'int8_t': (8, True), 'uint8_t': (8, False), 'int16_t': (16, True), 'uint16_t': (16, False),
+    'int32_t': (32, True), 'uint32_t': (32, False), 'int64_t': (64, True), 'uint64_t': (64, False),
 }
 
 
